@@ -43,6 +43,7 @@ type c14Case struct {
 	ce      []string
 	ctype   string   // Content-Type the origin sends ("" = the field is absent)
 	extra   []string // further response header fields k,v,… (keys from c14Others, canonical, in that order)
+	params  string   // how the payload was encoded (codec parameters), for the human rendering
 	mirror  bool     // the origin repeats the Content-Encoding values in X-Ce-Mirror (see arrivedCE)
 	arrived []string // filled by c14Observe: X-Ce-Mirror as the client's header parser delivered it
 	payload []byte
@@ -509,12 +510,13 @@ func c14Observe(c *c14Case, hr *http.Response, o *c14Obs) {
 // corrupted: the encoded stream itself was damaged (bit flip, truncation with matching framing).
 func (c *c14Case) corrupted() bool { return c.stream == "flip" || c.stream == "trunc" }
 
-// flipUnchecked: a bit flip in a format without an integrity check (raw deflate, brotli) may
+// flipUnchecked: a bit flip in a format without an integrity check (raw deflate, brotli, a zstd
+// frame encoded without Content_Checksum) may
 // decode to anything - error, payload, or other bytes with a clean end, depending on the bit
 // and on how the input arrives. Nothing about the body can be judged; the decision, the headers
 // and the absence of a crash still are.
 func (c *c14Case) flipUnchecked() bool {
-	return c.stream == "flip" && (c.alg == "br" || c.alg == "deflate")
+	return c.stream == "flip" && (c.alg == "br" || c.alg == "deflate" || strings.Contains(c.params, "crc=false"))
 }
 
 func (o c14Obs) answer(c *c14Case) string {
@@ -775,7 +777,7 @@ func (c *c14Case) oracle(o c14Obs) (ok bool, why string) {
 			return false, "garbage before the error"
 		}
 	case "flip":
-		if (alg == "gzip" || alg == "zstd") && !strings.HasPrefix(o.term, "err") && !bytes.Equal(o.data, c.payload) {
+		if (alg == "gzip" || alg == "zstd") && !c.flipUnchecked() && !strings.HasPrefix(o.term, "err") && !bytes.Equal(o.data, c.payload) {
 			return false, fmt.Sprintf("corrupt %s stream read as %s (no error, not the payload)", alg, verifc14.Digest(o.data, o.term))
 		}
 	}
@@ -1024,10 +1026,24 @@ func c14Random(r *rand.Rand, proto string, n, nBig int) []*c14Case {
 		}
 		p := verifc14.Payload(r, pc)
 		wire, alg := c14Encode(enc, p)
+		params := ""
+		if r.Intn(2) == 0 {
+			// the codec's parameter space: level / quality, window, single-segment frames, check sum,
+			// optional gzip header fields, sync flushes, padding (verifc14.CompressP)
+			wire, params = verifc14.CompressP(r, enc.alg[0], p, verifc14.ZstdMaxLogQuick)
+		}
+		if i == n && nBig > 0 {
+			// one 12 MiB payload behind a 16 MiB zstd window (no stock encoder level goes beyond
+			// 8 MiB), streamed or as one single-segment frame
+			cfg, enc, alg = c14Cfgs[2], c14Encs[3], "zstd"
+			p = verifc14.LongRepeat(r, 12<<20)
+			single := r.Intn(2) == 0
+			wire, params = verifc14.CompressZstd(p, 24, single), fmt.Sprintf("zstd window=2^24 single=%v", single)
+		}
 		c := &c14Case{
 			id: fmt.Sprintf("%s-r-%d", proto, i), proto: proto, dc: cfg.dc, auto: cfg.auto, ae: cfg.ae, method: "GET",
 			ce: enc.ce, ctype: "application/octet-stream", payload: p, wire: wire, stream: "valid", alg: alg, framing: "cl",
-			sizes: verifc14.Sizes(r),
+			sizes: verifc14.Sizes(r), params: params,
 		}
 		if r.Intn(3) == 0 {
 			c.framing = "stream"
@@ -1151,6 +1167,16 @@ func c14RunLane(t *testing.T, s *verifh.Session, e *c14Env, cases []*c14Case, ne
 			ce = strings.Join(c.ce, "|")
 		}
 		human := fmt.Sprintf("%s %s dc=%v auto=%v callerAE=%q range=%q CE=%q type=%q extra=%q stream=%s/%s framing=%s payload=%dB wire=%dB reads=%v", c.proto, c.method, c.dc, c.auto, c.ae, c.rng, ce, c.ctype, c.extra, c.alg, c.stream, c.framing, len(c.payload), len(c.wire), c.sizes)
+		if c.params != "" {
+			human += " [" + c.params + "]"
+			count("codec-params")
+			if strings.Contains(c.params, "single=true") {
+				count("zstd:single-segment")
+			}
+			if len(c.payload) >= 12<<20 {
+				count("12MiB")
+			}
+		}
 		if c.mirror {
 			human += fmt.Sprintf(" arrived-CE=%q", c.arrived)
 			count("ows")
@@ -1245,10 +1271,10 @@ func c14RunLane(t *testing.T, s *verifh.Session, e *c14Env, cases []*c14Case, ne
 	}
 }
 
-const c14Rule = "in-process origin; FULL matrix {default, DisableCompression, AutoDecompress, caller Accept-Encoding, caller AE+AutoDecompress, DisableCompression+AutoDecompress, caller AE gzip} x {GET, HEAD, Range GET} x Content-Encoding {gzip, deflate, br, zstd, identity, unknown, none, empty value, GZIP, Gzip, Br, ZSTD, x-gzip, 'gzip, br', 'br,gzip', two header lines, 'gzip;q=1'} with payloads {empty,tiny,text,random}; plus random decoded cases: payload up to multi-MiB, multi-member gzip, Content-Length vs streamed framing, streams truncated / bit-flipped (first bytes, last bytes, anywhere), zero-length body, multi-member gzip / multi-frame zstd messages that end BEFORE the declared Content-Length at a member/frame boundary, just after it, or anywhere (decoded under every configuration and undecoded; oracle: read error, never a silently shortened body), 1-4 cycling Read sizes from {1..65536}; Content-Encoding LISTS (one field: gzip first / last / repeated / empty elements / inner white space; several field lines: supported token in any position, repeated, empty first line, three lines; optional white space around a single token, the value as it ARRIVED learnt from a mirror field); the product {default, AutoDecompress (full), other configurations (sampled; full in thorough)} x {gzip, deflate, br, zstd, GZIP, none, identity, lists} x 43 Content-Type values (media types naming a compression or archive format, parameters, case, malformed, absent) with 0-3 further harmless fields (Content-Disposition filename=.gz, Cache-Control: no-transform, Vary, ETag, Content-MD5, Content-Location, X-Content-Encoding, ...): the decision must not depend on them and they must arrive unchanged. Observed: Accept-Encoding at the origin, Response.Header (Content-Encoding, Content-Length, X-Keep, Content-Type and the further fields), ContentLength, Uncompressed, body bytes + final read error. Compared with the Lean model (c14x) and judged by an independent Go oracle of the property text; non-trivial = a Content-Encoding was sent or the body was decoded"
+const c14Rule = "in-process origin; FULL matrix {default, DisableCompression, AutoDecompress, caller Accept-Encoding, caller AE+AutoDecompress, DisableCompression+AutoDecompress, caller AE gzip} x {GET, HEAD, Range GET} x Content-Encoding {gzip, deflate, br, zstd, identity, unknown, none, empty value, GZIP, Gzip, Br, ZSTD, x-gzip, 'gzip, br', 'br,gzip', two header lines, 'gzip;q=1'} with payloads {empty,tiny,text,random}; plus random decoded cases: payload up to multi-MiB (one of 12 MiB behind a 16 MiB zstd window, streamed or single-segment), half of them encoded with DRAWN codec parameters (level / quality 0..11, brotli lgwin 10..24, zstd window 2^10..2^25, single-segment, check sum on/off, no-entropy / all-literal modes, padding frames, gzip FEXTRA/FNAME/FCOMMENT/MTIME/OS, sync flushes), multi-member gzip, Content-Length vs streamed framing, streams truncated / bit-flipped (first bytes, last bytes, anywhere), zero-length body, multi-member gzip / multi-frame zstd messages that end BEFORE the declared Content-Length at a member/frame boundary, just after it, or anywhere (decoded under every configuration and undecoded; oracle: read error, never a silently shortened body), 1-4 cycling Read sizes from {1..65536}; Content-Encoding LISTS (one field: gzip first / last / repeated / empty elements / inner white space; several field lines: supported token in any position, repeated, empty first line, three lines; optional white space around a single token, the value as it ARRIVED learnt from a mirror field); the product {default, AutoDecompress (full), other configurations (sampled; full in thorough)} x {gzip, deflate, br, zstd, GZIP, none, identity, lists} x 43 Content-Type values (media types naming a compression or archive format, parameters, case, malformed, absent) with 0-3 further harmless fields (Content-Disposition filename=.gz, Cache-Control: no-transform, Vary, ETag, Content-MD5, Content-Location, X-Content-Encoding, ...): the decision must not depend on them and they must arrive unchanged. Observed: Accept-Encoding at the origin, Response.Header (Content-Encoding, Content-Length, X-Keep, Content-Type and the further fields), ContentLength, Uncompressed, body bytes + final read error. Compared with the Lean model (c14x) and judged by an independent Go oracle of the property text; non-trivial = a Content-Encoding was sent or the body was decoded"
 
 var c14Need = []string{"status:206", "status:204", "status:304", "short:boundary", "short:anywhere", "short-decoded", "decoded", "untouched", "HEAD", "Range", "decoded:gzip", "decoded:deflate", "decoded:br", "decoded:zstd", "stream:trunc", "stream:flip", "stream:emptywire", "framing:stream", "decoded-error", "multi-MiB", "multi-member",
-	"type:compressed-media", "type:compressed-media+decoded", "extra-fields", "extra-fields+decoded", "ce-list", "ce-lines>1", "ows"}
+	"type:compressed-media", "type:compressed-media+decoded", "extra-fields", "extra-fields+decoded", "ce-list", "ce-lines>1", "ows", "codec-params", "12MiB"}
 
 // TestVerif_C14_e2e_h1: HTTP/1.1.
 func TestVerif_C14_e2e_h1(t *testing.T) {
